@@ -492,6 +492,22 @@ impl<A: Flavor> World<A> {
         }
     }
 
+    /// memory() with the 4 padding bytes at the end of the in-memory header zeroed: they are struct
+    /// padding, whose content the language leaves unspecified
+    pub fn mem_comparable(&self) -> Vec<u8> {
+        let mut m = self.mem().to_vec();
+        let a = self.a();
+        if a.unify() {
+            let d = a.data_offset();
+            if d >= 4 && d <= m.len() {
+                for b in &mut m[d - 4..d] {
+                    *b = 0;
+                }
+            }
+        }
+        m
+    }
+
     pub fn mem(&self) -> &'static [u8] {
         let a = self.a();
         unsafe { std::slice::from_raw_parts(a.raw_ptr(), a.capacity()) }
@@ -832,7 +848,7 @@ impl<A: Flavor> World<A> {
         let post = self.snap();
         self.check_invariants(&post)?;
         if self.mode.trace {
-            let memhash = if self.mode.memhash { crate::runner::fnv(self.mem()) } else { 0 };
+            let memhash = if self.mode.memhash { crate::runner::fnv(&self.mem_comparable()) } else { 0 };
             self.trace.push(Obs { op: ix, res, range, snap: post, memhash });
         }
         Ok(())
@@ -1749,7 +1765,7 @@ pub fn run_history<A: Flavor>(cfg: &Cfg, ops: &[Op], mode: Mode) -> RunOut {
         }
     }
     let trace = std::mem::take(&mut w.trace);
-    let mem = if want_mem { w.mem().to_vec() } else { vec![] };
+    let mem = if want_mem { w.mem_comparable() } else { vec![] };
     let classes_before = w.classes.clone();
     match w.teardown() {
         Ok(classes) => RunOut { classes, trace, mem, viol: None, foreign: take_foreign() },
